@@ -1,50 +1,72 @@
 import Hannibal.Monitor.Handles
 /-
   C13 — stream-attached actors handle every item in order and end with the stream.
+
+  `monC13`  : every handled item is exactly the next one the stream yielded (in order, no repeats, no
+              skips), no item or message being handled is ever abandoned, `finished` and then `stopped`
+              are called at most once each and in that order.
+  `monC13q` : by the time nothing can move any more: if the stream ended, a stop was accepted or the
+              last strong handle is gone, the actor has ended gracefully; otherwise every item yielded
+              so far was handled.
 -/
 namespace Hannibal
 
 structure C13St where
   ready : List Nat          -- items made available and not yet handled (in order)
+  cancelled : Bool
+  finishedSeen : Nat
+  stoppedSeen : Nat
+  deriving Repr, DecidableEq
+
+/-- what must not happen -/
+def bad13 (st : C13St) : Label → Bool
+  | .cbBegin (.item k) => st.ready.head? != some k      -- not exactly the next item the stream yielded
+  | .cbBegin .finished => st.finishedSeen ≥ 1
+  | .cbBegin .stopped => st.stoppedSeen ≥ 1 || st.finishedSeen == 0
+  | .cbAbandon _ => !st.cancelled                       -- an item or message being handled is never abandoned
+  | _ => false
+
+def next13 (st : C13St) : Label → C13St
+  | .streamReady k => { st with ready := st.ready ++ [k] }
+  | .cbBegin (.item _) => { st with ready := st.ready.tail }
+  | .cbBegin .finished => { st with finishedSeen := 1 }
+  | .cbBegin .stopped => { st with stoppedSeen := 1 }
+  | .cancel => { st with cancelled := true }
+  | _ => st
+
+def monC13 (c : MonCtx) : Mon C13St where
+  init := { ready := [], cancelled := false, finishedSeen := 0, stoppedSeen := 0 }
+  step st l := if !c.cfg.stream then some st else if bad13 st l then none else some (next13 st l)
+
+structure C13qSt where
+  ready : List Nat
   ended : Bool
   stopIssued : Bool
-  cancelled : Bool
   failure : Bool
   terminated : Bool
   graceful : Bool
-  finishedSeen : Nat
-  stoppedSeen : Nat
   hold : HoldSt
   deriving Repr, DecidableEq
 
-def monC13 (c : MonCtx) : Mon C13St where
-  init := { ready := [], ended := false, stopIssued := false, cancelled := false, failure := false,
-            terminated := false, graceful := false, finishedSeen := 0, stoppedSeen := 0,
-            hold := HoldSt.init c.h0 c.k0 }
+def monC13q (c : MonCtx) : Mon C13qSt where
+  init := { ready := [], ended := false, stopIssued := false, failure := false, terminated := false,
+            graceful := false, hold := HoldSt.init c.h0 c.k0 }
   step st l :=
     if !c.cfg.stream then some st else
     let st := { st with hold := st.hold.step l }
     match l with
     | .streamReady k => some { st with ready := st.ready ++ [k] }
     | .streamEnd => some { st with ended := true }
-    | .cbBegin (.item k) =>
-      -- exactly the next item the stream yielded
-      (match st.ready with
-       | k' :: rest => if k == k' then some { st with ready := rest, graceful := false } else none
-       | [] => none)
-    | .cbBegin .finished => if st.finishedSeen ≥ 1 then none else some { st with finishedSeen := 1, graceful := false }
-    | .cbBegin .stopped =>
-      if st.stoppedSeen ≥ 1 || st.finishedSeen == 0 then none else some { st with stoppedSeen := 1, graceful := false }
+    | .cbBegin (.item _) => some { st with ready := st.ready.tail, graceful := false }
     | .cbBegin _ => some { st with graceful := false }
     | .cbEnd .stopped true => some { st with graceful := true }
-    | .cbAbandon _ => if st.cancelled then some st else none      -- never abandoned
     | .stopReq _ true | .ctxStop true => some { st with stopIssued := true }
     | .begin _ _ .halt | .begin _ _ .tryHalt | .begin _ _ .consume => some { st with stopIssued := true }
-    | .cancel => some { st with cancelled := true, failure := true, terminated := true }
+    | .cancel => some { st with failure := true, terminated := true }
     | .quiescent _ =>
       if st.failure then some st
       else if st.ended || st.stopIssued || !st.hold.strongHeld then
-        (if st.terminated && st.graceful then some st else none)   -- ends with the stream / on stop
+        (if st.terminated && st.graceful then some st else none)   -- ends with the stream / on stop / last drop
       else if !st.terminated && !st.ready.isEmpty then none         -- every item yielded so far was handled
       else some st
     | l =>
